@@ -258,7 +258,7 @@ class Ctx:
         cur = None
         seen = {}
         text = o + e
-        for m in re.finditer(r"'([^']+)' (depends on axioms: \[([^\]]*)\]|does not depend on any axioms)", text, flags=re.S):
+        for m in re.finditer(r"^'(\S+?)' (depends on axioms: \[([^\]]*)\]|does not depend on any axioms)", text, flags=re.S | re.M):
             name = m.group(1)
             axs = [a.strip() for a in (m.group(3) or "").replace("\n", " ").split(",") if a.strip()]
             seen[name] = axs
